@@ -464,6 +464,10 @@ class SimFS:
         self.tmp_count += 1
         base = self.norm(dir) if dir else SIM_ROOT + '/tmp'
         p = base + '/' + (prefix or 'tmp') + name + (suffix or '')
+        n = 0
+        while p in self.dirs or p in self.files:      # like the real mkdtemp: never an existing path
+            n += 1
+            p = base + '/' + (prefix or 'tmp') + name + f'_{n}' + (suffix or '')
         self._mkparents(p + '/x')
         self.dirs.add(p)
         return p
@@ -812,7 +816,9 @@ def install(world):
     out_raw = FaultyStdout(fs, 'stdout', std_faults.get('stdout'))
     err_raw = FaultyStdout(fs, 'stderr', std_faults.get('stderr'))
     enc = world.get('stdout_encoding', world.get('encoding', 'utf-8'))
-    sys.stdout = io.TextIOWrapper(io.BufferedWriter(out_raw), encoding=enc, errors='strict', line_buffering=False)
+    # 'line': like a terminal (every line reaches the sink at once); 'block': like a pipe or file (final flush)
+    sys.stdout = io.TextIOWrapper(io.BufferedWriter(out_raw), encoding=enc, errors='strict',
+                                  line_buffering=(world.get('stdout_mode') == 'line'))
     sys.stderr = io.TextIOWrapper(io.BufferedWriter(err_raw), encoding=enc, errors='backslashreplace',
                                   line_buffering=False)
     sys.stdin = io.TextIOWrapper(io.BytesIO(b''), encoding=enc)
